@@ -667,39 +667,63 @@ func c20Replies(c *kit.Ctx, m *storeModel, r4 *kit.Rule) {
 			continue
 		}
 		info := f.Info()
-		isReply := func(call *ast.CallExpr) bool {
+		st := &kit.Std{F: f}
+		// helpers that are handed the message are evaluated inline: a reply sent by
+		// `st.replyNothing(msg)` counts like one sent in the handler
+		st.ShouldInline = func(cf *kit.Func, call *ast.CallExpr) bool {
+			return m.writerOf(st.Cur(), call) == nil && txParamOf(cf) == nil
+		}
+		isMsg := func(e ast.Expr) bool { return st.ObjOf(e) == types.Object(msg) }
+		// isReplyIn: a call (in function cur) that sends to the request's reply subject
+		var isReplyIn func(cur *kit.Func, call *ast.CallExpr, resolve bool) bool
+		isReplyIn = func(cur *kit.Func, call *ast.CallExpr, resolve bool) bool {
 			for _, a := range call.Args {
-				if isMsgField(f, a, msg, "Reply") {
-					return true
+				if sel, ok := ast.Unparen(a).(*ast.SelectorExpr); ok && sel.Sel.Name == "Reply" {
+					if resolve && isMsg(sel.X) {
+						return true
+					}
+					if !resolve && kit.IsNamedType(info.TypeOf(sel.X), natsPkg, "Msg") {
+						return true
+					}
 				}
 			}
 			if kit.CallIs(info, call, natsPkg+".(*Msg).Respond") {
 				return true
 			}
-			// local closure that always replies (returnNothing)
-			if cf := f.CalleeFunc(call); cf != nil && cf.Lit != nil {
-				return alwaysCalls(cf, func(c2 *ast.CallExpr) bool {
-					for _, a := range c2.Args {
-						if isMsgField(cf, a, msg, "Reply") {
-							return true
-						}
-					}
-					return false
-				})
-			}
 			return false
 		}
+		isReply := func(call *ast.CallExpr) bool { return isReplyIn(st.Cur(), call, true) }
+		// a request handler: replies itself, in a local closure, or in a helper it hands the message to
 		nreply := 0
-		for _, call := range f.AllCalls(false) {
-			if isReply(call) {
-				nreply++
+		var countIn func(g *kit.Func, depth int)
+		seenG := map[*kit.Func]bool{}
+		countIn = func(g *kit.Func, depth int) {
+			if g == nil || g.Body == nil || seenG[g] || depth > 2 {
+				return
+			}
+			seenG[g] = true
+			for _, call := range g.AllCalls(true) {
+				if isReplyIn(g, call, false) {
+					nreply++
+				}
+				if cf := g.CalleeFunc(call); cf != nil && cf.PkgRel() == "store" && cf.Lit == nil && m.writerOf(g, call) == nil && txParamOf(cf) == nil {
+					passesMsg := false
+					for _, a := range call.Args {
+						if kit.IsNamedType(info.TypeOf(a), natsPkg, "Msg") {
+							passesMsg = true
+						}
+					}
+					if passesMsg {
+						countIn(cf, depth+1)
+					}
+				}
 			}
 		}
+		countIn(f, 0)
 		if nreply == 0 {
 			continue // not a request handler
 		}
 		c.Analysed(f)
-		st := &kit.Std{F: f}
 		st.ErrTag = func(call *ast.CallExpr, s kit.S) string {
 			q := kit.QualName(kit.Callee(info, call))
 			if strings.HasSuffix(q, "proto.Marshal") || strings.Contains(q, ".ToPb") {
